@@ -59,6 +59,27 @@ def canon_state(j):
             "pend": {"p": j["pend"]["p"], "D": sorted(j["pend"]["D"])}}
 
 
+def abs_of_proj(tp):
+    """(clades, outliers) of a ProjTree record."""
+    par = {n: p for n, p in tp["par"]}
+    dat = {n: set(ds) for n, ds in tp["dat"]}
+    kids = {}
+    for n, p in par.items():
+        kids.setdefault(p, []).append(n)
+    clades = set()
+
+    def rec(n):
+        s_ = set(dat.get(n, ()))
+        for k in kids.get(n, []):
+            s_ |= rec(k)
+        clades.add(frozenset(s_))
+        return s_
+
+    for r in kids.get(ROOT, []):
+        rec(r)
+    return (frozenset(clades), frozenset(tp["outl"]))
+
+
 def skey(st):
     return json.dumps(st, sort_keys=True, separators=(",", ":"))
 
@@ -290,7 +311,8 @@ def coexplore(graph, data, dist, tol=1e-8, max_edges=None, hows=(0, 1, 2), rng=N
             except absstate.Inconsistent as ex:
                 out["inconsistent"].append(dict(ctx, error="original object corrupted by an edit on its restored copy: %s" % ex))
             if not match:
-                out["mismatch"].append(dict(ctx, observed={"cur": pc, "sub": ps}, allowed=dsts[:3]))
+                same_abstract = any(abs_of_proj(d["cur"]) == abs_of_proj(pc) and abs_of_proj(d["sub"]) == abs_of_proj(ps) for d in dsts)
+                out["mismatch"].append(dict(ctx, observed={"cur": pc, "sub": ps}, allowed=dsts[:3], names_only=same_abstract))
                 continue
             dk = skey(match[0])
             if dk not in reps:
@@ -499,7 +521,7 @@ def apply_action_inplace(cur, sub, act, data):
     return apply_action(real, act, data, how=-1)
 
 
-def validate_edges(job, edges, data_ids, maxname=99, workers=None, timeout=3000):
+def validate_edges(job, edges, data_ids, maxname=99, workers=None, timeout=3000, abstract_only=False):
     """Batch trace validation of recorded edges against TreeADT (TraceTreeADT.tla). Returns (result, unmatched idx)."""
     import os
     from . import env
@@ -508,7 +530,9 @@ def validate_edges(job, edges, data_ids, maxname=99, workers=None, timeout=3000)
     path = os.path.join(d, "edges.json")
     with open(path, "w") as fh:
         json.dump(edges, fh)
-    cfg = tlc.cfg_text(constants=consts(data_ids, maxname=maxname), init="TraceInit", next_="TraceNext",
+    c = consts(data_ids, maxname=maxname)
+    c["AbstractOnly"] = tlc.tla_bool(abstract_only)
+    cfg = tlc.cfg_text(constants=c, init="TraceInit", next_="TraceNext",
                        invariants=["InvWF", "InvFresh", "InvConserved", "Matched"], view="tview")
     r = tlc.run_tlc(job, "TraceTreeADT", cfg, workers=workers, timeout=timeout, environ={"TRACE_FILE": path})
     matched = set()
